@@ -49,8 +49,12 @@ def payloads(tier):
         texts = texts[::2]
     ps = [(f"text[{i}]", f"import vp_sink; vp_sink.hit({t!r})", (t,)) for i, t in enumerate(texts)]
     ps += [("digits-only", "123", None), ("multi-line", "import vp_sink\nfor _i in range(1):\n    vp_sink.hit('ml', 2)\n", ("ml", 2)),
-           ("plain", "import vp_sink; vp_sink.hit()", ())]
+           ("plain", "import vp_sink; vp_sink.hit()", ()),
+           ("blank-lines-in-literal", BLANK_PAYLOAD, ("first line\n    \n\t\nlast line", "  a\n    \n  b"))]
     return ps
+
+
+BLANK_PAYLOAD = "import vp_sink\nvp_sink.hit('first line\\n    \\n\\t\\nlast line', '''  a\n    \n  b''')\n"
 
 
 def sha(path):
@@ -131,10 +135,20 @@ def _case(item):
         if os.path.exists(p):
             os.remove(p)
     torch.save(obj, src)
-    if overwrite:
-        # a file left at the output path by an earlier run must not survive an overwrite injection
-        with open(dst, "wb") as f:
-            f.write(b"stale output of an earlier injection")
+    # a file left at the output path by an earlier run (longer than the new archive) must not shine through
+    with open(dst, "wb") as f:
+        f.write(b"stale output of an earlier injection " * 40000 if not overwrite else b"stale output of an earlier injection")
+    # an earlier, unrelated injection in the same process must not influence this one
+    warm = os.path.join(d, "warm.pt")
+    warm_out = os.path.join(d, "warm-out.pt")
+    torch.save({"w": torch.zeros(1)}, warm)
+    try:
+        with redirect_stdout(io.StringIO()), redirect_stderr(io.StringIO()):
+            PyTorchModelWrapper(warm).inject_payload("pass", warm_out, injection="insertion", overwrite=False)
+    finally:
+        for pth in (warm, warm_out):
+            if os.path.exists(pth):
+                os.remove(pth)
     before = sha(src)
     with zipfile.ZipFile(src) as z:
         names0 = z.namelist()
